@@ -84,7 +84,7 @@ class TapeRecorder:
         return self.__class__(algebra=self.algebra, expr=expr, keys=keys_out)
 
     # Binary operators
-    gp = __mul__ = __rmul__ = partialmethod(binary_operator, operator='gp')
+    gp = __mul__ = partialmethod(binary_operator, operator='gp')
     sw = __rshift__ = partialmethod(binary_operator, operator='sw')
     cp = partialmethod(binary_operator, operator='cp')
     acp = partialmethod(binary_operator, operator='acp')
@@ -92,12 +92,15 @@ class TapeRecorder:
     sp = partialmethod(binary_operator, operator='sp')
     lc = partialmethod(binary_operator, operator='lc')
     rc = partialmethod(binary_operator, operator='rc')
-    op = __xor__ = __rxor__ = partialmethod(binary_operator, operator='op')
+    op = __xor__ = partialmethod(binary_operator, operator='op')
     rp = __and__ = partialmethod(binary_operator, operator='rp')
     proj = __matmul__ = partialmethod(binary_operator, operator='proj')
     add = __add__ = __radd__ = partialmethod(binary_operator, operator='add')
     sub = __sub__ = partialmethod(binary_operator, operator='sub')
     def __rsub__(self, other): return other + (-self)
+    # Reflected products: a plain number commutes, another recorder keeps its place on the left.
+    def __rmul__(self, other): return other.gp(self) if isinstance(other, self.__class__) else self.gp(other)
+    def __rxor__(self, other): return other.op(self) if isinstance(other, self.__class__) else self.op(other)
     __truediv__ = div = partialmethod(binary_operator, operator='div')
 
     def __pow__(self, power, modulo=None):
